@@ -173,6 +173,34 @@ PROPS["C05"] = dict(
     design_ref="DESIGN.md section 4, C05",
 )
 
+PROPS["C12"] = dict(
+    level="proof",
+    verus=["c12_request"],
+    labels=["C12.", "C03.request."],
+    kani=[KaniSet("src/request.rs", "c03_request.rs", [
+        Harness("c03_request_classify", "C03.request.classify", "C", "every (type alias, scheme, party) of the 24-entry alias table x 9 schemes; string loops bounded by the longest literal (unwind 20, unwinding assertions on)"),
+    ])],
+    trusted=["url_parser: URL scan, userinfo/port/IPv6 handling, IDN/punycode, registrable-domain lookup (addr/PSL) - NOT under contract",
+             "memchr::memchr = first occurrence (shim)"],
+    assumptions=[],
+    level_text="Verus proves the plumbing of Request::new and Request::preparsed: hostname = host of the parsed URL, third-party iff the registrable domains differ or the source is absent/unparseable, "
+               "scheme handed to classification = text before the first ':'; Kani proves the classification (websocket forcing, supported schemes) over the alias/scheme tables",
+    level_note="narrow: host extraction, IDN and public-suffix lookup are trusted (url_parser); panic-freedom of the URL scanner is not decided",
+    design_ref="DESIGN.md section 4, C12",
+)
+
+PROPS["C16"] = dict(
+    level="proof",
+    verus=["c16_labels"],
+    labels=["C16."],
+    kani=[],
+    trusted=["memchr/memrchr (shims)", "seahash uninterpreted", "HostnameRuleDb storage, hostname_cosmetic_resources merge/prune, generichide lookup - NOT under contract"],
+    assumptions=["the domain handed in is a suffix of the hostname (computed by url_parser)"],
+    level_text="Verus proves, for all strings, that the lookup hashes of a page host are exactly the host itself and every parent domain down to the registrable domain, and the entity forms with the public suffix removed plus the public suffix itself; all slicing in bounds",
+    level_note="partial: only the host -> lookup-hash mechanism; the per-host merge and exception pruning in cosmetic_filter_cache.rs are not under contract",
+    design_ref="DESIGN.md section 4, C16",
+)
+
 for _p in PROPS.values():
     _p.setdefault("technique", TECH)
     _p.setdefault("explanation", "")
